@@ -314,6 +314,7 @@ pub fn parse_unit(text: &str) -> Unit {
             "localcall" => u.localcall.extend(words),
             "dropcall" => u.dropcall.extend(words),
             "puremethods" => u.puremethods.extend(words),
+            "variants" => {}
             "lockinv" => u.lockinv.push((words[0].clone(), words[1..].join(" "))),
             "verbatim" => u.verbatim.push((variants, block_text(&body))),
             "struct" => u.structs.push(parse_struct(&rest, &body)),
